@@ -125,3 +125,25 @@ Theorem C03_half_widen_injective : forall p q, (p < 65536)%N -> (q < 65536)%N ->
   widen binary16 p = widen binary16 q -> p = q.
 Proof. exact half_widen_injective. Qed.
 Print Assumptions C03_half_widen_injective.
+
+(* Single and double precision, every pattern, by arithmetic on the rounding function (proofs/Float32.v, proofs/FloatField.v). *)
+Require Import Float32 FloatField.
+Theorem C03_single_roundtrip : forall p, (p < 4294967296)%N -> is_nan binary32 p = false -> narrow binary32 (widen binary32 p) = Some p.
+Proof. exact single_roundtrip. Qed.
+Print Assumptions C03_single_roundtrip.
+
+Theorem C03_single_widen_injective : forall p q, (p < 4294967296)%N -> (q < 4294967296)%N -> is_nan binary32 p = false -> is_nan binary32 q = false ->
+  widen binary32 p = widen binary32 q -> p = q.
+Proof. exact single_widen_injective. Qed.
+Print Assumptions C03_single_widen_injective.
+
+Theorem C03_double_identity : forall p, (p < 18446744073709551616)%N -> is_nan binary64 p = false -> widen binary64 p = p /\ narrow binary64 p = Some p.
+Proof. exact double_identity. Qed.
+Print Assumptions C03_double_identity.
+
+Theorem C03_float32_field : forall en d rest pre base sk cx p cx2 p2 o, length d = 4%nat -> app_mode o ->
+  is_nan binary32 (pattern_of en d) = false ->
+  exists x, parse (CFormat en Ff) cx p (at_pos pre (d ++ rest) base sk) = Ok (VFloat x, at_pos (pre ++ d) rest base sk) /\
+            build (CFormat en Ff) (VFloat x) cx2 p2 o = Ok (VFloat x, oapp o d).
+Proof. exact float32_parse_then_build. Qed.
+Print Assumptions C03_float32_field.
